@@ -3,7 +3,6 @@ package main
 import (
 	"fmt"
 	"go/types"
-	"sort"
 	"strings"
 
 	"github.com/mmcloughlin/avo/build"
@@ -55,7 +54,16 @@ type c08Outcome struct {
 func c08NewCtx(sig string) (*build.Context, error) {
 	c := build.NewContext()
 	c.Function("f")
-	c.SignatureExpr(sig)
+	if strings.Contains(sig, "unsafe.Pointer") {
+		// the expression parser has no package "unsafe": build the same signature from go/types values
+		t := types.Typ[types.UnsafePointer]
+		p := types.NewPointer(t)
+		params := types.NewTuple(types.NewVar(0, nil, "x", t), types.NewVar(0, nil, "p", p))
+		results := types.NewTuple(types.NewVar(0, nil, "r", t), types.NewVar(0, nil, "q", p))
+		c.Signature(gotypes.NewSignature(nil, types.NewSignatureType(nil, nil, nil, params, results, false)))
+	} else {
+		c.SignatureExpr(sig)
+	}
 	if c.VerifErrCount() != 0 {
 		return nil, fmt.Errorf("signature %q: %v", sig, c.VerifErrMessages())
 	}
@@ -95,13 +103,13 @@ func c08Observe(c *build.Context, call func()) (out c08Outcome) {
 
 // c08Case is one reachable input with what the implementation did.
 type c08Case struct {
-	dir      string // load | store
-	typ      string // Go spelling
-	basic    *types.Basic
-	reg      c08Reg
-	shape    string // param | deref
-	mem      operand.Mem
-	out      c08Outcome
+	dir   string // load | store
+	typ   string // Go spelling
+	basic *types.Basic
+	reg   c08Reg
+	shape string // param | deref
+	mem   operand.Mem
+	out   c08Outcome
 }
 
 func c08Run(dir, typ, shape string, rg c08Reg) (*c08Case, error) {
@@ -226,7 +234,6 @@ func init() {
 					rows = append(rows, cs)
 				}
 			}
-			sort.SliceStable(rows, func(i, j int) bool { return false })
 			if *cpuRows > 0 && *cpuRows < len(rows) {
 				// always keep 4-byte integers with XMM (F7) and one row per opcode; fill up at random
 				keep := map[int]bool{}
@@ -234,6 +241,9 @@ func init() {
 				for i, cs := range rows {
 					if !byOpc[cs.dir+cs.out.resp] {
 						byOpc[cs.dir+cs.out.resp] = true
+						keep[i] = true
+					}
+					if cs.reg.class == "xmm" && gotypes.Sizes.Sizeof(cs.basic) == 4 {
 						keep[i] = true
 					}
 				}
